@@ -99,6 +99,7 @@ type State struct {
 	seq      map[string]int
 	ghost    map[string]Value
 	wit      []*Witness
+	multi    map[int]bool // index terms known to admit more than one value
 	mergeRet Value
 	silent   bool
 }
@@ -128,6 +129,7 @@ func (st *State) clone(e *Engine) *State {
 		seq:     make(map[string]int, len(st.seq)),
 		ghost:   make(map[string]Value, len(st.ghost)),
 		wit:     append([]*Witness(nil), st.wit...),
+		multi:   make(map[int]bool, len(st.multi)),
 	}
 	st.ep = &epoch{}
 	for i, f := range st.frames {
@@ -171,6 +173,9 @@ func (st *State) clone(e *Engine) *State {
 	}
 	for k, v := range st.ghost {
 		n.ghost[k] = v
+	}
+	for k, v := range st.multi {
+		n.multi[k] = v
 	}
 	if st.panicking != nil {
 		p := *st.panicking
